@@ -15,6 +15,7 @@ import Driver.Sync
 import Driver.Contracts
 import Driver.RewardsNode
 import Driver.Abi
+import Driver.NodeSync
 /-
 One line per handler object. The first handler that understands a line answers it.
 -/
@@ -42,6 +43,7 @@ def registry : List Obj := [
   pureObj VerifyD.pureVerify,
   pureObj pureProto,
   mkObj ([] : SyncSt) syncStep,
+  mkObj ({} : NsSt) nsStep,
   contractObj,
   rewardsNodeObj,
   pureObj pureAbi,
